@@ -687,20 +687,108 @@ func c07wrapperShape(p *core.Prog, f *ssa.Function, blocking bool, dir types.Cha
 	}
 	var sel *ssa.Select
 	var bareOp ssa.Instruction
-	core.Instrs(f, func(ins ssa.Instruction) {
-		switch x := ins.(type) {
-		case *ssa.Select:
-			sel = x
-		case *ssa.Send:
-			if chanOf(x.Chan) == recv {
-				bareOp = ins
+	scan := func(g *ssa.Function) {
+		core.Instrs(g, func(ins ssa.Instruction) {
+			switch x := ins.(type) {
+			case *ssa.Select:
+				sel = x
+			case *ssa.Send:
+				if chanOf(x.Chan) == recv {
+					bareOp = ins
+				}
+			case *ssa.UnOp:
+				if x.Op == token.ARROW && chanOf(x.X) == recv {
+					bareOp = ins
+				}
 			}
-		case *ssa.UnOp:
-			if x.Op == token.ARROW && chanOf(x.X) == recv {
-				bareOp = ins
+		})
+	}
+	scan(f)
+	// the operation may be written once in an unexported helper that is handed the queue, the value and an expiry channel
+	// (`sendOrExpire(val, time.After(timeout), ErrQueuePutTimeout)`, the untimed variant passing a nil expiry channel,
+	// whose arm never fires): the helper is read with its parameters standing for the arguments
+	upv := func(v ssa.Value) ssa.Value { return v }
+	timeoutPrm := ssa.Value(nil)
+	if len(f.Params) >= 2 {
+		timeoutPrm = f.Params[len(f.Params)-1]
+	}
+	if sel == nil && bareOp == nil {
+		var hc *ssa.Call
+		core.Instrs(f, func(ins ssa.Instruction) {
+			if call, ok := ins.(*ssa.Call); ok {
+				if g := core.Callee(&call.Call); g != nil && p.InRepo(g) && len(g.Blocks) > 0 && g.Object() != nil && !g.Object().Exported() && len(call.Call.Args) > 0 && core.Resolve(call.Call.Args[0]) == recv {
+					hc = call
+				}
+			}
+		})
+		if hc != nil {
+			h := core.Callee(&hc.Call)
+			recv = h.Params[0]
+			upv = func(v ssa.Value) ssa.Value {
+				if q2, isP := core.Resolve(v).(*ssa.Parameter); isP && q2.Parent() == h {
+					for i, hp := range h.Params {
+						if hp == q2 && i < len(hc.Call.Args) {
+							return hc.Call.Args[i]
+						}
+					}
+				}
+				return v
+			}
+			scan(h)
+		}
+	}
+	nilArm := -1
+	if sel != nil {
+		for i, st := range sel.States {
+			if st.Dir == types.RecvOnly && core.IsNilConst(core.Resolve(upv(st.Chan))) {
+				nilArm = i
 			}
 		}
-	})
+	}
+	if bare && sel != nil && nilArm >= 0 && len(sel.States) == 2 && sel.Blocking {
+		// a blocking select whose other arm waits on a nil channel is the bare operation
+		other := sel.States[1-nilArm]
+		wantDir := types.SendOnly
+		if closedErr != "" {
+			wantDir = types.RecvOnly
+		}
+		if chanOf(other.Chan) != recv || other.Dir != wantDir {
+			return false, "expected a single bare channel operation on the receiver"
+		}
+		for _, r := range rets {
+			if r.err != "nil" && r.err != closedErr {
+				// the return of the arm that never fires
+				onNil := false
+				for _, m := range r.rc.Cmps() {
+					if ex, ok := m.X.(*ssa.Extract); ok && ex.Tuple == ssa.Value(sel) && ex.Index == 0 {
+						if k, isK := m.Y.(*ssa.Const); isK && (m.Op == token.EQL && int(k.Int64()) == nilArm || m.Op == token.NEQ && int(k.Int64()) == 1-nilArm) {
+							onNil = true
+						}
+					}
+				}
+				if !onNil {
+					return false, "unexpected error result " + r.err
+				}
+			}
+		}
+		if closedErr != "" {
+			okClosed := false
+			for _, r := range rets {
+				if r.err == closedErr {
+					for _, cnd := range r.rc.Facts {
+						n := core.Normalize(cnd)
+						if ex, ok := n.V.(*ssa.Extract); ok && ex.Tuple == ssa.Value(sel) && ex.Index == 1 && !n.True {
+							okClosed = true
+						}
+					}
+				}
+			}
+			if !okClosed {
+				return false, "the !ok edge of the receive does not return " + closedErr
+			}
+		}
+		return true, "blocking select whose only other arm waits on a nil channel (never ready): the bare channel operation; closed channel mapped to " + closedErr
+	}
 	if bare {
 		if bareOp == nil || sel != nil {
 			return false, "expected a single bare channel operation on the receiver"
@@ -735,8 +823,8 @@ func c07wrapperShape(p *core.Prog, f *ssa.Function, blocking bool, dir types.Cha
 	for i, st := range sel.States {
 		if chanOf(st.Chan) == recv && st.Dir == dir {
 			chanArm = i
-		} else if call, ok := st.Chan.(*ssa.Call); ok && core.StdCallee(&call.Call) == "time.After" && st.Dir == types.RecvOnly {
-			if len(f.Params) >= 2 && call.Call.Args[0] == ssa.Value(f.Params[len(f.Params)-1]) {
+		} else if call, ok := core.Resolve(upv(st.Chan)).(*ssa.Call); ok && core.StdCallee(&call.Call) == "time.After" && st.Dir == types.RecvOnly {
+			if timeoutPrm != nil && call.Call.Args[0] == timeoutPrm {
 				timerArm = i
 			}
 		}
